@@ -123,19 +123,22 @@ structure Hist (F : Type) where
 section
 variable {F : Type} (ctx : Ctx F)
 
+/-- one step of Welford's running (n, mean, M2). -/
+def welford (acc : F × F × F) (y : F) : F × F × F :=
+  let ops := ctx.ops
+  let n := ops.add acc.1 (ops.ofInt 1)
+  let delta := ops.sub y acc.2.1
+  let mean := ops.add acc.2.1 (ops.div delta n)
+  (n, mean, ops.add acc.2.2 (ops.mul delta (ops.sub y mean)))
+
 /-- `sigma` from the whole history: Welford's running mean / M2 over all arguments, then the distance of the
 last argument from the mean in standard deviations (0 while fewer than two values or zero variance). -/
 def refSigma (xs : List F) (x : F) : F :=
   let ops := ctx.ops
-  let step (acc : F × F × F) (y : F) : F × F × F :=   -- (n, mean, m2)
-    let n := ops.add acc.1 (ops.ofInt 1)
-    let delta := ops.sub y acc.2.1
-    let mean := ops.add acc.2.1 (ops.div delta n)
-    (n, mean, ops.add acc.2.2 (ops.mul delta (ops.sub y mean)))
-  let (n, mean, m2) := (xs ++ [x]).foldl step (ops.ofInt 0, ops.ofInt 0, ops.ofInt 0)
-  let var := ops.div m2 (ops.sub n (ops.ofInt 1))
-  if ops.lt n (ops.ofInt 2) || ops.eq var (ops.ofInt 0) then ops.ofInt 0
-  else ops.div (ops.abs (ops.sub x mean)) (ops.sqrt var)
+  let acc := (xs ++ [x]).foldl (welford ctx) (ops.ofInt 0, ops.ofInt 0, ops.ofInt 0)
+  let var := ops.div acc.2.2 (ops.sub acc.1 (ops.ofInt 1))
+  if ops.lt acc.1 (ops.ofInt 2) || ops.eq var (ops.ofInt 0) then ops.ofInt 0
+  else ops.div (ops.abs (ops.sub x acc.2.1)) (ops.sqrt var)
 
 /-- `spread` from the whole history: running maximum minus running minimum. -/
 def refSpread (xs : List F) (x : F) : F :=
